@@ -31,14 +31,14 @@ def register(name):
     return deco
 
 
-def chunked(name: str, typ: str, rows, doc: str):
-    """Lean text defining `name : List typ` as the concatenation of chunks of ≤ CHUNK rows"""
+def chunked(name: str, typ: str, rows, doc: str, size: int = CHUNK):
+    """Lean text defining `name : List typ` as the concatenation of chunks of ≤ size rows"""
     out = []
     parts = []
-    for i in range(0, max(len(rows), 1), CHUNK):
-        part = "%s_%d" % (name, i // CHUNK)
+    for i in range(0, max(len(rows), 1), size):
+        part = "%s_%d" % (name, i // size)
         parts.append(part)
-        out.append("def %s : List %s := [\n%s]\n" % (part, typ, ",\n".join("  " + r for r in rows[i:i + CHUNK])))
+        out.append("def %s : List %s := [\n%s]\n" % (part, typ, ",\n".join("  " + r for r in rows[i:i + size])))
     out.append("/-- %s -/\ndef %s : List %s := %s\n" % (doc, name, typ, " ++ ".join(parts)))
     return "\n".join(out)
 
@@ -117,4 +117,47 @@ def gen_NsfTables() -> str:
             "/-- nsf.py `ABSORPTION_WAVELENGTH` -/",
             "def absorptionWavelength : Dec := %s" % src["ABSORPTION_WAVELENGTH"].lean(),
             "", "end PtGen", ""]
+    return "\n".join(out)
+
+
+JN_LEAN = {"j0": ".j0", "J": ".J", "j2": ".j2", "j4": ".j4", "j6": ".j6"}
+
+
+def _dec_list(ds):
+    return "[" + ", ".join(d.lean() for d in ds) + "]"
+
+
+@register("Ancillary")
+def gen_Ancillary() -> str:
+    cord = R.read_cordero(R.cordero_source())
+    cryst = R.crystal_source()
+    lines_ = R.read_spectral(R.spectral_source())
+    mag = R.read_cfml(R.cfml_source())
+    f0 = R.read_f0(R.f0_source())
+    out = ["import PtVerif.Model.Ancillary", "namespace PtGen", "open PtLoad", "",
+           "/-! the translator's reading of covalent_radius.Cordero (%d lines), crystal_structure." % len(cord),
+           "    crystal_structures (%d slots), xsf.spectral_lines_data (%d rows), magnetic_ff.CFML_DATA" % (len(cryst), len(lines_)),
+           "    (%d entries), xsf/f0_WaasKirf.dat (%d entries). -/" % (len(mag), len(f0)), ""]
+    out.append(chunked("corderoRows", "CovRow",
+                       [".skip" if r is None else ".row %d %s %s" % (r[0], r[1].lean(), r[2].lean()) for r in cord],
+                       "covalent_radius.py `Cordero`"))
+    out.append(chunked("crystalList", "(Option Crystal)",
+                       ["none" if c is None else "some ⟨%s, [%s]⟩" % (
+                           translate.lean_str(c[0]),
+                           ", ".join("(%s, %s)" % (translate.lean_str(k), v.lean()) for k, v in c[1]))
+                        for c in cryst], "crystal_structure.py `crystal_structures` (index = Z)"))
+    out.append(chunked("lineRows", "LineRow",
+                       ["⟨%d, %s, %s⟩" % (R.sym_code(s), a.lean(), b.lean()) for s, a, b in lines_],
+                       "xsf.py `spectral_lines_data`"))
+    out.append(chunked("magRows", "MagRow",
+                       ["⟨%s, %d, %d, %s⟩" % (JN_LEAN[jn], R.sym_code(s), q, _dec_list(vs)) for jn, s, q, vs in mag],
+                       "magnetic_ff.py `CFML_DATA`", size=50))
+    out.append(chunked("cmEntries", "CMEntry",
+                       ["⟨%s, %s, %s, %s⟩" % (translate.lean_str(n), _dec_list(a), c.lean(), _dec_list(b))
+                        for n, z, q, a, c, b in f0], "xsf/f0_WaasKirf.dat", size=40))
+    out.append(chunked("cmAtoms", "(Nat × Option Int)",
+                       ["(%d, %s)" % (z, "none" if q is None else "some %s" % lean_int(q)) for n, z, q, a, c, b in f0],
+                       "atomic number of each f0 entry (`#S Z name`) and the charge its name denotes "
+                       "(`none` for valence-state entries)"))
+    out += ["end PtGen", ""]
     return "\n".join(out)
